@@ -131,6 +131,9 @@ func c18CollectOps(p *Prog, tt *c18Terms, fn *ssa.Function) (ops []*c18Op, unkno
 		if !ok {
 			return
 		}
+		if d, ok := in.(*ssa.Defer); ok && c18IsModelledDefer(fn, d) {
+			return // handled by c18CollectDeferred
+		}
 		obj := calleeObj(ci)
 		full := c18FullName(obj)
 		if full == "" {
@@ -229,7 +232,7 @@ func c18ErrTests(call *ssa.Call) (tests []c18ErrTest, errv ssa.Value) {
 		if !ok {
 			return
 		}
-		if !((cmp.X == errv && isNilConst(cmp.Y)) || (cmp.Y == errv && isNilConst(cmp.X))) {
+		if !((isNilConst(cmp.Y) && c18Root(cmp.X) == errv) || (isNilConst(cmp.X) && c18Root(cmp.Y) == errv)) {
 			return
 		}
 		b := ifi.Block()
@@ -291,6 +294,8 @@ func c18Under(t, dir *c18T) (under, self bool) {
 // name = position-free function name used as construct prefix.
 func c18CheckWriter(p *Prog, r *Report, fn *ssa.Function, name string, cfg *c18Cfg) {
 	_, unknown := c18CollectOps(p, newC18Terms(p), fn)
+	_, dunk := c18CollectDeferred(p, newC18Terms(p), fn)
+	unknown = append(unknown, dunk...)
 	if len(unknown) == 0 {
 		c18CheckWriterCore(p, r, fn, name, cfg)
 		return
@@ -320,6 +325,8 @@ func c18CheckWriterCore(p *Prog, r *Report, fn *ssa.Function, name string, cfg *
 	R := cfg.Rules
 	tt := newC18Terms(p)
 	ops, unknown := c18CollectOps(p, tt, fn)
+	deferred, dunk := c18CollectDeferred(p, tt, fn)
+	unknown = append(unknown, dunk...)
 	sort.Strings(unknown)
 	for _, u := range unknown {
 		r.Undecide("%s calls %s: a file-system effect this check does not model", name, u)
@@ -485,6 +492,9 @@ func c18CheckWriterCore(p *Prog, r *Report, fn *ssa.Function, name string, cfg *
 	removedFirst := c18CheckLeftovers(p, r, fn, name, cfg, ops)
 
 	if pub == nil || link == nil {
+		if len(deferred) > 0 {
+			r.Undecide("%s: deferred file-system operations are not judged because the publishing rename / link was not identified", name)
+		}
 		return
 	}
 	for _, o := range ops {
@@ -510,7 +520,7 @@ func c18CheckWriterCore(p *Prog, r *Report, fn *ssa.Function, name string, cfg *
 			}
 		}
 		if len(tests) == 0 {
-			if errv == nil || len(refs(errv)) == 0 {
+			if errv == nil || len(c18Refs(errv)) == 0 {
 				unchecked[o] = "discarded"
 			} else {
 				unchecked[o] = "used-otherwise"
@@ -527,6 +537,7 @@ func c18CheckWriterCore(p *Prog, r *Report, fn *ssa.Function, name string, cfg *
 		bPrevDone               // prev seen nil, or RemoveAll(*prev) executed
 		bPrevStored             // prev was overwritten
 		bLoopDone               // the loop over the file map ran to its end
+		bPubOK                  // the publishing rename may have succeeded
 	)
 	prevStoreKind := func(in ssa.Instruction) int { // 0 none, 1 = this version dir, 2 = something else
 		st, ok := in.(*ssa.Store)
@@ -616,8 +627,21 @@ func c18CheckWriterCore(p *Prog, r *Report, fn *ssa.Function, name string, cfg *
 			return st
 		},
 		EdgeTransfer: func(from, to *ssa.BasicBlock, st uint64) uint64 {
+			if succEdge[edgeKey{from, to}]&(1<<uint(pub.idx)) != 0 {
+				st |= 1 << bPubOK
+			}
 			return st | failEdge[edgeKey{from, to}]
 		}}
+	if unchecked[pub] != "" {
+		prev := may.Transfer
+		may.Transfer = func(in ssa.Instruction, st uint64) uint64 {
+			st = prev(in, st)
+			if in == ssa.Instruction(pub.Call) {
+				st |= 1 << bPubOK
+			}
+			return st
+		}
+	}
 	may.Run()
 	bit := func(st uint64, b int) bool { return st&(1<<uint(b)) != 0 }
 
@@ -739,14 +763,20 @@ func c18CheckWriterCore(p *Prog, r *Report, fn *ssa.Function, name string, cfg *
 		r.Violation(R.Prev, name+" removes previous version", p.Pos(fn.Pos()), "no os.Remove/RemoveAll of *"+cfg.Prev+": superseded version directories are never deleted (without crashes more than the current version remains)")
 	}
 
+	// ---- deferred clean-up ---------------------------------------------------------------
+	closureWrites := c18ClosureWrites(fn)
+	c18CheckDeferred(p, r, fn, name, cfg, deferred, vdir, link, closureWrites, func(in ssa.Instruction) bool {
+		st, ok := may.Before(in)
+		return ok && bit(st, bPubOK)
+	})
+
 	// ---- returns ------------------------------------------------------------------------
 	nNil := 0
 	must.AtReturns(func(ret *ssa.Return, st uint64) {
 		if len(ret.Results) == 0 {
 			return
 		}
-		last := ret.Results[len(ret.Results)-1]
-		if !isNilConst(last) {
+		if c18ReturnErrKind(ret, closureWrites) != "nil" {
 			return
 		}
 		nNil++
@@ -763,7 +793,7 @@ func c18CheckWriterCore(p *Prog, r *Report, fn *ssa.Function, name string, cfg *
 			"a successful return (at "+pos(ret)+") leaves prev not pointing at the directory just published: the next Write deletes the wrong directory or never deletes this one")
 	})
 	if nNil == 0 {
-		r.Undecide("%s has no return of a nil error constant: success exits not recognised", name)
+		r.Undecide("%s has no return that provably yields a nil error: success exits not recognised", name)
 	}
 }
 
@@ -785,7 +815,7 @@ func instrReaches(a, b ssa.Instruction) bool {
 func c18FailureIsInspected(o *c18Op) bool {
 	tests, errv := c18ErrTests(o.Call)
 	found := false
-	for _, r := range refs(errv) {
+	for _, r := range c18Refs(errv) {
 		if c, ok := r.(*ssa.Call); ok {
 			if obj := calleeObj(c); obj != nil && obj.Pkg() != nil {
 				n := obj.Pkg().Path() + "." + obj.Name()
@@ -1039,4 +1069,127 @@ func c18CheckLeftovers(p *Prog, r *Report, fn *ssa.Function, name string, cfg *c
 		}
 	}
 	return removedFirst
+}
+
+// c18CheckDeferred judges deferred operations: they run at every return that
+// follows the defer statement. A deferred mutation of the version directory
+// that can run at a return reachable after the successful rename destroys the
+// published set.
+func c18CheckDeferred(p *Prog, r *Report, fn *ssa.Function, name string, cfg *c18Cfg, deferred []*c18Deferred, vdir *c18T, link *c18Op,
+	closureWrites map[*ssa.Alloc]bool, pubMayHaveSucceeded func(ssa.Instruction) bool) {
+	R := cfg.Rules
+	if len(deferred) == 0 {
+		return
+	}
+	var cells []*ssa.Alloc
+	seen := map[*ssa.Alloc]bool{}
+	for _, d := range deferred {
+		for _, g := range d.Guard {
+			if g.Kind == "flag" && !seen[g.Cell] {
+				seen[g.Cell] = true
+				cells = append(cells, g.Cell)
+			}
+		}
+	}
+	if len(cells) > 30 {
+		r.Undecide("%s: too many flags in deferred functions", name)
+		return
+	}
+	flags := c18FlagFlow(fn, cells, closureWrites)
+	cellIdx := map[*ssa.Alloc]int{}
+	for i, c := range cells {
+		cellIdx[c] = i
+	}
+	for _, d := range deferred {
+		o := d.Op
+		o.vdir = vdir
+		construct := name + " deferred " + o.desc() + " after publish"
+		at := p.Pos(instrPos(d.Where))
+		under, _ := c18Under(o.Path, vdir)
+		switch {
+		case under:
+		case cfg.isTarget(o.Path) || (o.Kind == c18Rename && cfg.isTarget(o.Aux)):
+			r.Violation(R.Paths, name+" deferred "+o.desc(), at, "a deferred "+o.Fn+" acts on the target path itself: the target is not only replaced by the atomic rename")
+			continue
+		case link != nil && o.Path.String() == link.Path.String() && o.Kind == c18Remove:
+			r.OK(R.Paths, name+" deferred "+o.desc(), at, "deferred removal of the temporary link path (harmless)")
+			continue
+		default:
+			r.Undecide("%s: cannot relate the path of the deferred %s to the version directory or the temporary link", name, o.desc())
+			continue
+		}
+		if d.Opaque != "" {
+			r.Undecide("%s: deferred %s: %s", name, o.desc(), d.Opaque)
+			continue
+		}
+		// every return after the defer statement
+		verdict, where := "ok", ""
+		nRet := 0
+		allInstrs(fn, func(in ssa.Instruction) {
+			rd, ok := in.(*ssa.RunDefers)
+			if !ok || !instrReaches(d.Defer, rd) {
+				return
+			}
+			var ret *ssa.Return
+			for _, j := range rd.Block().Instrs {
+				if x, ok := j.(*ssa.Return); ok {
+					ret = x
+				}
+			}
+			if ret == nil {
+				return
+			}
+			nRet++
+			if !pubMayHaveSucceeded(rd) {
+				return // pre-publish phase: cleaning up the unpublished directory is fine
+			}
+			kind := c18ReturnErrKind(ret, closureWrites)
+			fst, _ := flags.Before(rd)
+			runs := "yes"
+			for _, g := range d.Guard {
+				val := "unknown"
+				switch g.Kind {
+				case "err":
+					switch kind {
+					case "nil":
+						val = map[bool]string{true: "false", false: "true"}[g.Val]
+					case "nonnil":
+						val = map[bool]string{true: "true", false: "false"}[g.Val]
+					}
+				case "flag":
+					i := uint(2 * cellIdx[g.Cell])
+					switch {
+					case fst&(1<<i) != 0: // known true
+						val = map[bool]string{true: "true", false: "false"}[g.Val]
+					case fst&(2<<i) != 0: // known false
+						val = map[bool]string{true: "false", false: "true"}[g.Val]
+					}
+				}
+				if val == "false" {
+					runs = "no"
+					break
+				}
+				if val == "unknown" {
+					runs = "maybe"
+				}
+			}
+			switch runs {
+			case "yes":
+				verdict, where = "bad", p.Pos(instrPos(ret))
+			case "maybe":
+				if verdict != "bad" {
+					verdict, where = "unknown", p.Pos(instrPos(ret))
+				}
+			}
+		})
+		switch verdict {
+		case "bad":
+			r.Violation(R.Order, construct, at,
+				"the deferred "+o.Fn+" of the version directory runs at the return at "+where+", which is reachable after the rename over the target succeeded (and satisfies the deferred function's condition): the directory the target now resolves to is deleted, the target dangles although a complete set was published. Clean-up of the version directory must be confined to the phase before the rename")
+		case "unknown":
+			r.Undecide("%s: cannot tell whether the deferred %s runs at the return at %s, which is reachable after the successful rename", name, o.desc(), where)
+		default:
+			r.OK(R.Order, construct, at, "the deferred clean-up of the version directory cannot run at a return that follows the successful rename")
+		}
+	}
 }
